@@ -185,6 +185,47 @@ def describe(typ, body):
                      caps=sorted(set(c for c, _ in o['caps'])), has_as4=o['as4'] is not None, wf=True)
         else:
             d.update(wf=False)
+    elif typ == UPDATE:
+        d.update(update_summary(body))
+    elif typ == ROUTEREFRESH or typ == CISCO_RR:
+        if len(body) == 4:
+            d.update(afi=body[0] * 256 + body[1], safi=body[3])
     elif typ == -1:
         d['type'] = 'GARBAGE'
     return d
+
+
+def update_summary(body):
+    """counts and attribute type codes of an UPDATE the agent wrote (harness-side reader, RFC 4271 4.3)"""
+    out = {'wdn': -1, 'nln': -1, 'ats': [], 'lp': -1}
+    try:
+        wl = struct.unpack('!H', body[:2])[0]
+        wd = body[2:2 + wl]
+        al = struct.unpack('!H', body[2 + wl:4 + wl])[0]
+        at = body[4 + wl:4 + wl + al]
+        nl = body[4 + wl + al:]
+
+        def count(b):
+            n = 0
+            while b:
+                b = b[1 + (b[0] + 7) // 8:]
+                n += 1
+            return n
+        out['wdn'], out['nln'] = count(wd), count(nl)
+        while at:
+            fl, t = at[0], at[1]
+            if fl & 0x10:
+                ln = struct.unpack('!H', at[2:4])[0]
+                v = at[4:4 + ln]
+                at = at[4 + ln:]
+            else:
+                ln = at[2]
+                v = at[3:3 + ln]
+                at = at[3 + ln:]
+            out['ats'].append(t)
+            if t == 5 and len(v) == 4:
+                lp = struct.unpack('!I', v)[0]
+                out['lp'] = lp if lp < 2 ** 31 else 2 ** 31 - 1
+    except Exception:
+        out['wdn'] = -2
+    return out
